@@ -30,7 +30,7 @@ CFG = {
                  "C14_int_accessors_exact", "C14_int_as_negative_refuted", "C14_bigint_cbor_roundtrip", "C14_decimal_roundtrip",
                  "C14_value_add_exact_or_error", "C14_value_sub_exact_or_error", "C14_value_sub_refuted_before_repair",
                  "C14_value_clamped_sub_spec", "C14_value_add_comm", "C14_value_add_assoc", "C14_sub_undoes_add",
-                 "C14_compare_componentwise", "C14_value_eq_sound"],
+                 "C14_compare_componentwise", "C14_value_eq_sound", "C14_judge_accepts_model"],
     "allowed_axioms": [],
     "compare": "exact",
     "nontrivial": _nontrivial,
